@@ -4,9 +4,9 @@ SPEC = {
     'coq_dir': 'C28',
     'claimed': False,
     'theorems': ['C28_unique_in_window', 'C28_unexpired_fee_chainid', 'C28_window_cache_exact', 'C28_tx_index_exact',
-                 'C28_all_signed_refuted', 'C28_all_signed_partial', 'C28_fix_all_signed', 'C28_hypotheses_satisfiable'],
+                 'C28_all_signed_refuted', 'C28_all_signed_partial', 'C28_chain_clean_partial', 'C28_fix_all_signed', 'C28_hypotheses_satisfiable'],
     'allowed_axioms': [],
-    'shard': 8,
+    'shard': 16,
     'rule': 'one case = one history on a fresh memdb test node (pack window low/high from {(2,3),(1,1),(1,2),(3,2)}, miner '
             'stopped, three funded accounts): peer blocks built by hand on a factory node (real TxHash/StateHash; when the '
             'factory would drop a transaction the block is rebuilt with the intended list) and delivered through '
@@ -20,7 +20,10 @@ SPEC = {
             'forgeries of unseen bodies, empty blocks, block times 0/-1/+1..4 after the parent), window (one TxHeight '
             'transaction offered again at every height to the end of its window and beyond), reorg (trunk to height '
             '13-14, side branch from 2-4 below the tip repeating transactions of the replaced blocks, of the common prefix '
-            'and of itself; later blocks repeat transactions of both branches; sometimes the old trunk wins again), forgery '
+            'and of itself; later blocks repeat transactions of both branches; sometimes the old trunk wins again), '
+            'reorg-window (a TxHeight transaction exactly low+high blocks below the tip is offered again by the side '
+            'branch that replaces the tip: the disconnection must bring its block back into the cache window), edge steps '
+            '(block time / height exactly at, one before and one after the end of validity, both ends of the TxHeight window), forgery '
             '/ linear-any (T pooled, then a block with T\'s body under another key: the open finding). The '
             'connectBlock/disconnectBlock sequence is derived from the tip before/after each delivery (a failed '
             're-organisation is not rolled back by the node). Observed: error class per connection, stored list of '
